@@ -14,6 +14,38 @@ CLAIMED = {
         'for all 29 languages / 3892 rows exhaustively. Proof is the right level: the domain is a finite table and the theorem covers every row.',
    ref='§5 C08', technique='Lean 4 proof by kernel evaluation over regenerated tables + correspondence of C look-ups',
    note=TB + ' Known finding: two Wireless-Village extension tokens alias one name (listed in known_findings.json; theorem ext_tables_dec_enc_partial excludes exactly those rows).'),
+ 'C01': dict(
+   text='Theorems over the executable model of the whole WBXML->XML conversion (parser, tree builder incl. SyncML embedded documents and CDATA handling, XML printer): totality (fuel never exhausted), absence of the explicit UB flags that mark every unchecked pointer step of the C code, and the output contract, for all byte strings and all option tuples (Props/C01.lean, growing; unfinished parts carry _partial names). The model is tied byte-exactly to the C code by the W2X correspondence (corpus, grammar-directed, mutated, SyncML, random inputs x option tuples) under ASan/UBSan/LSan with the input in a read-only mapping. Partial: heap use, leaks and real stack frames are runtime facts observed, not proved.',
+   ref='§5 C01', technique='Lean 4 proof over a byte-exact model + differential run under sanitizers + 8 MiB stack ladder',
+   note=TB + ' Known finding: nesting deeper than ~30k levels exhausts the 8 MiB stack (recorded in known_findings.json). Heap polynomial bound not yet proved.'),
+ 'C04': dict(
+   text='Theorems relating Model.parse to the WBXML grammar (Spec/Wbxml.lean: parse (ser d) = events d by induction on documents, staged by grammar fragment; unfinished fragments are visible as _partial). Tie: PARSE correspondence (event streams byte-exact) over every language and every table row, plus an independent specification oracle (tools/specgen.py) evaluated on the implementation.',
+   ref='§5 C04', technique='Lean 4 proof (induction over the grammar) + byte-exact event-stream correspondence + independent spec oracle',
+   note=TB + ' Typed opaque content is generated only where the parser\'s single current_tag slot agrees with the specification (observation recorded in DESIGN.md).'),
+ 'C11': dict(
+   text='Universally quantified theorems: mb_u_int32 round trip and minimality for all v < 2^32, sixth octet rejected, base64 encode = RFC 4648 spec and decode(encode bs) = bs for every non-empty byte string, hex round trips, entity UTF-8 = Spec.utf8 for every scalar value, codes >= 2^31 rejected. Tie: CODEC correspondence against the real static functions and through the public API (all scalar values, all short strings; thorough: all 2^32 integers).',
+   ref='§5 C11', technique='Lean 4 proof (induction / bit lemmas) + exhaustive and sampled correspondence',
+   note=TB + ' Known finding: ENTITY 0 delivers no character. Fixed: UTF-8 length selection in parse_entity.'),
+ 'C12': dict(
+   text='Universally quantified theorems for SI/EMN %Datetime (symbolic over digits, every legal truncation), Wireless-Village integers (round trip, overflow error) and date-times (all zones, exact opaque/inline form), and opaque<->base64 binary content, over models of the parser and encoder routines. Tie: TYPED correspondence against the static routines and end to end through minimal documents.',
+   ref='§5 C12', technique='Lean 4 proof + correspondence (~300k lines quick)',
+   note=TB + ' Known finding: OTA ICON / DRMREL KeyValue base64 text is decoded only up to the first white-space character. Four defects fixed (see known_findings.json).'),
+ 'C13': dict(
+   text='Theorems over Model.parse: every bounds test the property names (string-table length, opaque length, table references, literal and public-id indices, inline-string terminator, mb-int length) rejects out-of-range values, the four documented tolerances are exactly those, truncation theorems (Props/C13.lean, growing; _partial where unfinished). Tie: W2X correspondence on EVERY proper prefix of valid documents and on every length/index field overwritten with exceeding values; implementation-side oracle: error status and NULL output.',
+   ref='§5 C13', technique='Lean 4 proof over the parser model + exhaustive prefix / field-overwrite differential run',
+   note=TB),
+ 'C15': dict(
+   text='decide-checked theorems over struct fields, create/reinit/reset assignments and writer sets regenerated from the clang AST of the current source (parser reinit complete, converter objects hold options only, encoder reset complete up to the recorded finding), plus history-freedom theorems by induction over all finite document histories for the object life-cycle model. Tie: translator + HIST/OBS correspondence on real objects vs fresh objects.',
+   ref='§5 C15', technique='Lean 4 proof over regenerated field facts + induction over histories; differential histories',
+   note=TB + ' Additional trusted: clang-14 JSON AST and tools/gen_fields.py. Known finding: encoder_encode_tree overwrites lang/output_charset/use_strtbl settings that reset cannot restore. Fixed: wbxml_encoder_reset string table / indent.'),
+ 'C19': dict(
+   text='Refinement theorem history_refines: for ALL finite operation sequences on a buffer (31 operations) or list, the concrete model of the C struct (explicit capacity, memmove/memcpy as bounds-obligated primitives that flag UB) never faults, keeps the invariant (one NUL after the contents, len < malloced) and equals the plain-sequence specification; static buffers refuse mutation; out-of-range positions fail without effect. Tie: BUF/LIST correspondence of whole histories under ASan/UBSan.',
+   ref='§5 C19', technique='Lean 4 proof (refinement by induction over operation lists) + lock-step differential histories',
+   note=TB + ' The delete whose range extends beyond the contents is excluded exactly as the property excludes it. Four defects fixed.'),
+ 'C20': dict(
+   text='Theorems over a model of both tools\' main functions and both option scanners with the library conversion as a parameter: whole input read under any fread chunking, output bytes = library bytes, exit status = library code mod 256, failed: line iff failure, no output file on failure, never crashes for any argv / file-system facts. Tie: TOOL correspondence against the freshly built executables on generated scenarios, fed with the in-process library verdict.',
+   ref='§5 C20', technique='Lean 4 proof + scenario-based differential run of the real executables',
+   note=TB + ' OS behaviour and glibc getopt are parameters (specified, tied by correspondence). Three defects fixed.'),
  'C14': dict(
    text='Theorem schedule_independence for an abstract machine with read-only shared state and per-thread local state (any number of threads, any programs, any two complete interleavings: every thread sees exactly its sequential outputs), instantiated for the library through structural premises proved by kernel evaluation over the symbol table regenerated from the current build: no writable global/static object or section, no external symbol that POSIX allows to be non-reentrant or that mutates process state. Partial: a C-level data race is not expressible in the model; ThreadSanitizer runs of 2-16 threads compared with sequential runs are validation and counter-example search, not proof.',
    ref='§5 C14', technique='Lean 4 proof (induction over schedules) + decide over regenerated symbol dump; TSan differential run as validation',
